@@ -51,7 +51,19 @@ def main():
   except common.MachineryError as ex:
     print(f'MACHINERY-ERROR {prop}: {ex}', file=sys.stderr)
     return 2
-  except Exception:   # pylint: disable=broad-except
+  except Exception as ex:   # pylint: disable=broad-except
+    text = str(ex) if isinstance(ex, common.LibraryError) else traceback.format_exc()
+    if isinstance(ex, common.LibraryError) or common.library_raised(ex):
+      # the library itself raised while executing a behaviour the specification allows
+      out = os.path.join(common.OUT, prop)
+      os.makedirs(out, exist_ok=True)
+      path = os.path.join(out, 'viol_exception.txt')
+      with open(path, 'w') as f:
+        f.write(text)
+      print(f'VIOLATION property={prop} replay={path}')
+      print('  exception:library: the library raised while executing a behaviour the specification allows: '
+            + text.strip().splitlines()[-1][:300])
+      return 1
     traceback.print_exc()
     print(f'MACHINERY-ERROR {prop}: unexpected exception', file=sys.stderr)
     return 2
